@@ -10,7 +10,7 @@ from harness.terms_extract import extract_terms_table
 
 ID = "C02"
 COQ_PROP = "props/C02.v"
-CORR_REQUIRE = ["Crit", "gen.TermsTable", "Terms", "TermsCorr", "Parse", "C02Model", "C02Expected", "C02Frag"]
+CORR_REQUIRE = ["Crit", "gen.TermsTable", "Terms", "TermsCorr", "Parse", "C02Model", "C02Frag"]
 CORR_CHECK = "check_c02"
 CORR_SHOW = "show_c02"
 GEN_FILES = ["gen/TermsTable.v"]
@@ -97,7 +97,16 @@ def corpus():
         ["arith", "add", ["basic", "gt", A, B_, None], ["vali", 1, None], None],  # (a>b)+1
         ["basic", "eq", A, ["cplx", "and", ["basic", "eq", B_, ["vali", 1, None], None],
                             ["basic", "eq", C_, ["vali", 2, None], None], None], None],  # a=(b=1 AND c=2)
-        ["arith", "div", A, ["star", None], None],                            # a/*
+        ["arith", "div", A, ["star", None], None],                            # a/*  (star operand: outside the property, not judged)
+        ["basic", "eq", ["not", A, None], B_, None],                          # (NOT a)=b   known finding: NOT as an operand
+        ["arith", "add", ["not", A, None], ["vali", 1, None], None],          # (NOT a)+1
+        ["neg", ["not", A, None]],                                            # -(NOT a)
+        ["isnull", ["not", A, None], None],                                   # (NOT a) IS NULL
+        ["not", ["basic", "eq", A, ["cplx", "and", ["basic", "eq", B_, ["vali", 1, None], None],
+                                    ["basic", "eq", C_, ["vali", 2, None], None], None], None], None],  # NOT a=(b=1 AND c=2): one pair of brackets
+        ["arith", "sub", A, ["arith", "mul", ["vali", -1, None], B_, None], None],   # a-(-1*b)
+        ["neg", ["basic", "gt", A, B_, None]],                                # -(a>b)
+        ["basic", "eq", ["between", A, B_, C_, None], ["isnull", A, None], None],   # (a BETWEEN b AND c)=(a IS NULL)
         # shapes that must stay right
         ["arith", "sub", A, ["arith", "sub", B_, C_, None], None],
         ["arith", "div", A, ["arith", "mul", B_, C_, None], None],
@@ -414,11 +423,30 @@ def starts_with_minus(n):
     return m[0] == "neg" or label(m) == "negative-literal"
 
 
+OPERAND_SLOTS = {"arith": (2, 3), "basic": (2, 3), "neg": (1,), "isnull": (1,), "notnull": (1,), "between": (1, 2, 3), "in": (1,)}
+
+
+def has_not_operand(n):
+    """a NOT term sits directly in an operand slot of an operator or predicate somewhere in n"""
+    if any(n[i][0] == "not" for i in OPERAND_SLOTS.get(n[0], ())):
+        return True
+    return any(has_not_operand(c) for c in children(n))
+
+
+def has_star_operand(n):
+    """the star used as an operand of an operator or predicate (not a well-typed tree: outside the property)"""
+    if any(n[i][0] == "star" for i in OPERAND_SLOTS.get(n[0], ())):
+        return True
+    return any(has_star_operand(c) for c in children(n))
+
+
 def classify(n):
     """finding class of a minimal failing node"""
     k = n[0]
     ch = children(n)
     labs = [label(c) for c in ch]
+    if any(n[i][0] == "not" for i in OPERAND_SLOTS.get(k, ())):
+        return "not-as-operand"
     if k == "neg":
         if starts_with_minus(ch[0]):
             return "double-minus"
@@ -434,6 +462,8 @@ def classify(n):
             return "shift-mix"
         if n[1] == "div" and ch[1][0] == "star":
             return "div-star"
+    if has_not_operand(n):
+        return "not-as-operand"
     if has_crit_operand(n):
         return "criterion-as-operand"
     if k == "arith" and has_shift(n):
@@ -465,6 +495,8 @@ def _raw_leaf_has_intro(t):
 
 def judge(case, text):
     t = case["t"]
+    if has_star_operand(t):
+        return {"verdict": "not-judged", "why": "star as an operand: not a well-typed expression tree"}
     # lexical clause on the real text (any tree, any context): a comment introducer outside quoted regions
     if not text.startswith("!") and has_comment_intro(text) and not _raw_leaf_has_intro(t):
         cls = "div-star" if "/*" in text else ("double-minus" if "--" in text else "other")
